@@ -643,31 +643,46 @@ def deep_eq_rooms(a, b):
 
 
 def prefix_preserved(w, old_room, new_room):
-    """every (key -> history) of the old room is a prefix of the same history in the new room"""
+    """every (key -> history) of the old room is a prefix of the history of the same key in the new room
+    (keys are matched semantically: the result is a python bool or a z3 formula)"""
     from .c15 import deep_eq
-    res = True
 
-    def lists_prefix(om, nm):
-        nonlocal res
+    def list_prefix(ol, nl):
+        if len(nl) < len(ol):
+            return False
+        r = True
+        for x, y in zip(ol, nl):
+            r = b_and(r, deep_eq(x.v, y.v))
+        return r
+
+    def maps_prefix(om, nm):
+        r = True
         for k, c in deref(om).entries:
-            hit = [c2 for k2, c2 in deref(nm).entries if deep_eq(k, k2) is True]
-            if len(hit) != 1:
-                res = False
-                return
-            ol, nl = deref(c.v).elems, deref(hit[0].v).elems
-            if len(nl) < len(ol):
-                res = False
-                return
-            for x, y in zip(ol, nl):
-                res = b_and(res, deep_eq(x.v, y.v))
-    lists_prefix(w.field(old_room, 'Room', 'admins').v, w.field(new_room, 'Room', 'admins').v)
+            alts = []
+            for k2, c2 in deref(nm).entries:
+                ke = deep_eq(k, k2)
+                if ke is False:
+                    continue
+                alts.append(b_and(ke, list_prefix(deref(c.v).elems, deref(c2.v).elems)))
+            one = False
+            for a_ in alts:
+                one = b_or(one, a_)
+            r = b_and(r, one)
+        return r
+
+    res = maps_prefix(w.field(old_room, 'Room', 'admins').v, w.field(new_room, 'Room', 'admins').v)
     oa, na = deref(w.field(old_room, 'Room', 'authorisations').v), deref(w.field(new_room, 'Room', 'authorisations').v)
     for k, c in oa.entries:
-        hit = [c2 for k2, c2 in na.entries if deep_eq(k, k2) is True]
-        if len(hit) != 1:
-            return False
-        for fld in ('users', 'rights', 'user_admins'):
-            lists_prefix(w.field(c.v, 'Authorisation', fld).v, w.field(hit[0].v, 'Authorisation', fld).v)
+        alts = False
+        for k2, c2 in na.entries:
+            ke = deep_eq(k, k2)
+            if ke is False:
+                continue
+            g = ke
+            for fld in ('users', 'rights', 'user_admins'):
+                g = b_and(g, maps_prefix(w.field(c.v, 'Authorisation', fld).v, w.field(c2.v, 'Authorisation', fld).v))
+            alts = b_or(alts, g)
+        res = b_and(res, alts)
     return res
 
 
